@@ -112,6 +112,40 @@ func stepwise(env *lib.TravEnv, root datamodel.Node, p datamodel.Path) string {
 }
 
 // resolve runs Get, Focus and the stepwise lookup for one path.
+// cleanSegs: no segment is empty or contains a slash (the condition under which a path survives its text form).
+func cleanSegs(segs []string) bool {
+	for _, s := range segs {
+		if s == "" || strings.Contains(s, "/") {
+			return false
+		}
+	}
+	return true
+}
+
+// reparse renders the path, parses the text again and resolves the result: "=" when that gives what Get of the
+// path itself gave, "-" when the path has an empty segment or a slash in a segment.
+func reparse(env *lib.TravEnv, p datamodel.Path, get string) string {
+	if !cleanSegs(lib.PathSegs(p)) {
+		return "-"
+	}
+	var gn datamodel.Node
+	var back datamodel.Path
+	err := lib.Safely(func() error {
+		back = datamodel.ParsePath(p.String())
+		var e error
+		gn, e = progFor(env).Get(env.RootNode, back)
+		return e
+	})
+	res := resText(gn, err)
+	if lib.SegsText(lib.PathSegs(back)) != lib.SegsText(lib.PathSegs(p)) {
+		res += " path=" + lib.SegsText(lib.PathSegs(back))
+	}
+	if res == get {
+		return "="
+	}
+	return res
+}
+
 func resolve(env *lib.TravEnv, p datamodel.Path) (get, focus, step string) {
 	var gn datamodel.Node
 	gerr := lib.Safely(func() error {
@@ -166,7 +200,7 @@ func runVisits(out *lib.Out, id string, tc *lib.TravCase) (paths [][]string, ok 
 	}
 	for i, p := range reported {
 		g, f, s := resolve(env, p)
-		visits[i] += ";" + g + ";" + f + ";" + s
+		visits[i] += ";" + g + ";" + f + ";" + s + ";" + reparse(env, p, g)
 		paths = append(paths, lib.PathSegs(p))
 	}
 	out.Case(id, "c14v", tc.Sel.Text(), tc.Root.Text(), tc.BlocksText(), strings.Join(visits, ",")+"|"+lib.WalkErrClass(werr))
@@ -179,7 +213,7 @@ func runPath(out *lib.Out, id string, tc *lib.TravCase, segs []string) {
 		panic(err)
 	}
 	g, f, s := resolve(env, lib.SegsPath(segs))
-	out.Case(id, "c14p", tc.Root.Text(), tc.BlocksText(), lib.SegsText(segs), g+";"+f+";"+s)
+	out.Case(id, "c14p", tc.Root.Text(), tc.BlocksText(), lib.SegsText(segs), g+";"+f+";"+s+";"+reparse(env, lib.SegsPath(segs), g))
 }
 
 func runRoundTrip(out *lib.Out, id string, segs []string) {
@@ -189,7 +223,8 @@ func runRoundTrip(out *lib.Out, id string, segs []string) {
 }
 
 var oddSegs = []string{"", "0", "1", "2", "01", "+1", "-1", "-0", "1x", "x", "a", "b", "zz", "9223372036854775807",
-	"9223372036854775808", "18446744073709551616", "00000000000000000000001", "1.0", " 1", "a/b", "/", "é", "1_0", "0x1"}
+	"9223372036854775808", "18446744073709551616", "00000000000000000000001", "1.0", " 1", "a/b", "/", "é", "1_0", "0x1",
+	"\xff", "caf\xe9", "\xe2\x82", "a\xffb", "€\xe2", "\xc0\xaf", "\xed\xa0\x80"}
 
 func mutatePath(r *lib.Rng, base []string, keys []string) []string {
 	p := append([]string{}, base...)
@@ -344,7 +379,7 @@ func main() {
 			var segs []string
 			for x := 0; x < k; x++ {
 				if rng.Chance(75) {
-					segs = append(segs, []string{"a", "b", "0", "1", "01", "é", "key", "x y", "-"}[rng.Intn(9)])
+					segs = append(segs, []string{"a", "b", "0", "1", "01", "é", "key", "x y", "-", "\xff", "caf\xe9", "\xe2\x82", "a\xffb"}[rng.Intn(13)])
 				} else {
 					segs = append(segs, oddSegs[rng.Intn(len(oddSegs))])
 				}
